@@ -43,6 +43,9 @@ type VFs struct {
 
 	// Hook is called (without the lock) before every operation; a non-nil fault replaces/limits the operation.
 	Hook func(ev FsEvent) *FsFault
+	// After is called after data-carrying operations (Read, ReadAt) completed: a second scheduling point, so that a
+	// preemption between "the buffer was filled" and "the caller looks at it" can be explored.
+	After func(ev FsEvent)
 	// SortDirs makes Readdir/Readdirnames(-1) results deterministic (sorted), then applies Perm if set.
 	SortDirs bool
 	Perm     func(n int) []int
@@ -260,13 +263,21 @@ func (f *VFile) Read(p []byte) (int, error) {
 			p = p[:ft.Short]
 		}
 	}
-	return f.File.Read(p)
+	n, err := f.File.Read(p)
+	if f.v.After != nil {
+		f.v.After(FsEvent{Op: "Read", Path: f.path, Handle: f.h, N: n})
+	}
+	return n, err
 }
 func (f *VFile) ReadAt(p []byte, off int64) (int, error) {
 	if ft := f.v.ev("ReadAt", f.path, f.h, len(p), false); ft != nil && ft.Err != nil {
 		return 0, ft.Err
 	}
-	return f.File.ReadAt(p, off)
+	n, err := f.File.ReadAt(p, off)
+	if f.v.After != nil {
+		f.v.After(FsEvent{Op: "ReadAt", Path: f.path, Handle: f.h, N: n})
+	}
+	return n, err
 }
 func (f *VFile) Seek(off int64, whence int) (int64, error) {
 	if ft := f.v.ev("Seek", f.path, f.h, int(off&0x7fffffff), false); ft != nil && ft.Err != nil {
